@@ -38,6 +38,7 @@ type symWalker struct {
 	memAtLoop map[memKey]poly
 	head      *ssa.BasicBlock // head of the record loop
 	skips     []string        // branches inside the loop that go on to the next element without appending
+	breaks    []string        // branches that leave the loop without appending and still reach the file write
 	dw        decWalker       // for addrKey / copyStruct helpers
 	// a second loop, over the list the first loop appended to (encode first, add up afterwards)
 	loopDone bool                 // the first loop has been walked
@@ -501,6 +502,12 @@ func (w *symWalker) walk(b, prev *ssa.BasicBlock) {
 			w.walk(s1, b)
 		case len(s1.Succs) == 1 && s1.Succs[0] == s0 && !hasStore(s1):
 			w.walk(s0, b)
+		case w.inLoop && !w.second && w.leavesLoop(s0) && !w.leavesLoop(s1):
+			w.noteBreak(b, s0, t)
+			w.walk(s1, b)
+		case w.inLoop && !w.second && w.leavesLoop(s1) && !w.leavesLoop(s0):
+			w.noteBreak(b, s1, t)
+			w.walk(s0, b)
 		case w.inLoop && w.skipsToHead(s0) && !w.skipsToHead(s1):
 			w.skips = append(w.skips, condPos(w.c, t))
 			w.walk(s1, b)
@@ -511,6 +518,39 @@ func (w *symWalker) walk(b, prev *ssa.BasicBlock) {
 			failUndecided("%s: a branch that is neither a release-identifier test nor an error guard may change the lengths", posOf(w.c, t))
 		}
 	case *ssa.Return, *ssa.Panic:
+	}
+}
+
+// leavesLoop: the loop head cannot be reached again from b (a `break`).
+func (w *symWalker) leavesLoop(b *ssa.BasicBlock) bool {
+	if w.head == nil || b == w.head {
+		return false
+	}
+	return !reachableFrom(b, nil, nil, nil)[w.head]
+}
+
+// noteBreak: the record loop is left over the edge from->to without the current
+// record having been appended.  That is an error exit only if the file is not
+// written afterwards: the write is looked for along the edge, following a
+// flag/error variable assigned before the break through the test behind the
+// loop (one-step threading).
+func (w *symWalker) noteBreak(from, to *ssa.BasicBlock, t *ssa.If) {
+	reach := threadedReach(from, to)
+	written := false
+	for bb := range reach {
+		for _, ins := range bb.Instrs {
+			if call, ok := ins.(ssa.CallInstruction); ok {
+				if sc := call.Common().StaticCallee(); sc != nil && sc.Name() == "Encoding" && w.c.inModule(sc) {
+					written = true
+				}
+				if o := calleeObj(call.Common()); o != nil && o.Pkg() != nil && o.Pkg().Path() == "os" && (o.Name() == "WriteFile" || o.Name() == "Create" || o.Name() == "OpenFile") {
+					written = true
+				}
+			}
+		}
+	}
+	if written {
+		w.breaks = append(w.breaks, condPos(w.c, t))
 	}
 }
 
@@ -872,6 +912,9 @@ func c03Lengths(c *Ctx, f *ssa.Function, l *layouts, a map[string]bool) (diffs [
 		diffs = append(diffs, fmt.Sprintf("NumberOfCdrsInFile is %s but the file gets one record per element of %s", got, w.loopBound))
 	} else if len(w.skips) > 0 {
 		diffs = append(diffs, fmt.Sprintf("NumberOfCdrsInFile is %s, but the branch at %s goes on to the next element without appending a record: the header then counts more CDRs than the file contains", got, strings.Join(w.skips, ", ")))
+	}
+	if len(w.breaks) > 0 {
+		diffs = append(diffs, fmt.Sprintf("the branch at %s leaves the loop over the records without appending the current one, and the file is written all the same (no error reaches the test behind the loop): NumberOfCdrsInFile counts records that are not in the file and the operation reports success", strings.Join(w.breaks, ", ")))
 	}
 	if len(w.appends) != 1 {
 		diffs = append(diffs, fmt.Sprintf("%d records appended per iteration (expected exactly one)", len(w.appends)))
